@@ -177,14 +177,28 @@ def h_factor_and_simplify(eng):
 
 # ------------------------------------------------------------------------------------------------
 class AliasRel(Ext):
+    """AliasRelation by its C17 contract: canonical_signed(n) = (canonical, sign) (a negated name flips the sign);
+    add(a, b) REQUIRES that b is not in the class of -a (C17: the relation never relates a variable to its own negation);
+    the violations of that precondition are recorded in `bad_adds`, merges inside one class in `redundant_adds`"""
+
     def __init__(self, canon):
-        self.canon, self.added = canon, []
+        self.canon, self.added, self.bad_adds, self.redundant_adds = canon, [], [], []
+
+    def cs(self, n):
+        neg = isinstance(n, str) and n.startswith("-")
+        base = n[1:] if neg else n
+        c = self.canon.get(base, base)
+        c, sg = c if isinstance(c, tuple) else (c, 1)
+        return c, (-sg if neg else sg)
 
     def sym_getattr(self, eng, name):
         if name == "canonical_signed":
-            return stub(lambda eng, n: (self.canon.get(n, n), 1))
+            return stub(lambda eng, n: self.cs(n))
         if name == "add":
             def add(eng, a, b):
+                (ca_, sa), (cb, sb) = self.cs(a), self.cs(b)
+                if ca_ == cb:
+                    (self.bad_adds if sa != sb else self.redundant_adds).append((a, b))
                 self.added.append((a, b))
             return stub(add)
         if name == "copy":
@@ -326,12 +340,14 @@ def h_make_alias(eng):
     n0, n1 = kinds[eng.choice(len(kinds))]
     negative = bool(eng.choice(2))
     allow_der = eng.input("allow_derivative_aliases", eng.fresh_bool("allow_der"))
-    # x may already be aliased to the state s (its canonical variable is then not eliminable)
-    x_canon = ["x", "s"][eng.choice(2)]
+    # x may already be aliased to the state s (its canonical variable is then not eliminable), to y, or to -y
+    PRE = [{"x": "x"}, {"x": "s"}, {"x": "y"}, {"x": ("y", -1)}, {"x": ("s", -1)}]
+    pre = PRE[eng.choice(len(PRE))]
+    x_canon = pre["x"]
     eng.input("pair", [n0, n1])
     eng.input("negative", negative)
-    eng.input("canonical_of_x", x_canon)
-    model, rel = alias_model({"x": x_canon})
+    eng.input("canonical_of_x", list(x_canon) if isinstance(x_canon, tuple) else x_canon)
+    model, rel = alias_model(dict(pre))
     opts = VDict([("detect_aliases", True), ("allow_derivative_aliases", allow_der), ("expand_vectors", False), ("expand_mx", False)])
     fr = alias_fragment(eng, model, opts, "_make_alias")
     f = fr.locals.get("_make_alias")
@@ -343,6 +359,10 @@ def h_make_alias(eng):
     algs = {"x", "y"}
     # (P) True  <=>  exactly one alias was recorded, eliminating an algebraic variable with the sign given
     eng.prove("make.true_iff_one_alias_recorded", z3.BoolVal(res == (len(rel.added) == 1)), added=rel.added)
+    # (P) modular obligation at the call site: AliasRelation.add is only called within its precondition (C17) -- two variables that are
+    # already known to be each other's NEGATION are never aliased positively (or vice versa): that equation forces the class to zero
+    # and must stay in the system
+    eng.prove("make.alias_relation_add_called_within_its_precondition", z3.BoolVal(not rel.bad_adds), bad=rel.bad_adds)
     if rel.added:
         a, b = rel.added[0]
         bname = b[1:] if isinstance(b, str) and b.startswith("-") else b
